@@ -195,7 +195,7 @@ const KINDS: &[(&str, &str)] = &[
     ("latitude", "conformal"), ("latitude", "authalic"), ("latitude", "rectifying"),
     ("permtide", "any"),
     ("dm", "any"), ("dms", "any"),
-    ("geodesic", "generic"), ("geodesic", "meridional"), ("geodesic", "equatorial"),
+    ("geodesic", "generic"), ("geodesic", "meridional"), ("geodesic", "equatorial"), ("geodesic", "short"),
     ("tmerc", "plain"), ("tmerc", "lat_0"), ("utm", "north"), ("utm", "south"),
     ("btmerc", "plain"), ("btmerc", "lat_0"), ("butm", "north"), ("butm", "south"),
     ("merc", "plain"), ("merc", "k_0"), ("merc", "lat_ts"), ("merc", "lon_0"), ("merc", "lat_0"), ("merc", "false-origin"),
@@ -826,6 +826,18 @@ fn build(raw: &Raw) -> Case {
                         "equatorial" => {
                             lat = 0.0;
                             az = if p[2] < 0.5 { 90.0 } else { -90.0 };
+                        }
+                        "short" => {
+                            // very short lines: 1 um .. 10 m (log-uniform), exactly 0, all azimuths
+                            // (incl. the cardinal ones) and latitudes (incl. the equator)
+                            let d = if p[4] > 0.95 { 0.0 } else { rd(10f64.powf(lin(p[3], -6.0, 1.0)) * s, 9) };
+                            if p[4] > 0.8 && p[4] <= 0.95 {
+                                az = [0.0, 90.0, 180.0, -90.0, -180.0][((p[4] - 0.8) / 0.15 * 5.0) as usize % 5];
+                            }
+                            if p[4] > 0.7 && p[4] <= 0.8 {
+                                lat = 0.0;
+                            }
+                            return p4(lat, lon, az, d);
                         }
                         _ => {}
                     }
@@ -1954,6 +1966,7 @@ fn main() {
     run.assume("random ellipsoids: a in [1, 7e6], 1/f in [150, 600]; nearly spherical non-spheres are not generated (ancillary::qs loses digits as eps/e^2)");
     run.assume("antimeridian class ('wrap'): longitudes are given in (-180, 180] with a central meridian within 15 degrees of +-180, so that lon - lon_0 is numerically ~360 degrees for points geometrically close to the central meridian");
     run.assume("grid operators: generated Gravsoft grids are smooth (contraction constant < 0.01) and points lie in the central 80-90 % of the coverage; in the shipped 5458_with_subgrid.gsb the sub-grid is not continuous with its parent (1 arcsec jump), so points within 0.1 degree of the sub-grid border are moved away from it");
+    run.assume("geodesic reversible, short lines (1 um .. 10 m and exactly 0): as for all lines the azimuth is judged by the displacement of the far end point it causes (angle x a sin(s/a)), so a line of length 0 may come back with any azimuth");
     run.assume("geodesic reversible: distances 1 m .. 18 000 km (scaled with a), |lat| <= 89 degrees; Vincenty's near-antipodal zone excluded by construction");
 
     // operators of the library the catalogue does not cover
